@@ -9,7 +9,7 @@
    and in fresh interpreters) and jit on/off agreement are run-time facts: tested by checks/C17.py, labelled tests. *)
 From Coq Require Import String.
 From Coq Require Import Reals ZArith Bool Lra List.
-From MellonV Require Import PyVal OptSem C17Tables OptThm ALists AInference AInferenceThm AConvexThm.
+From MellonV Require Import PyVal OptSem C17Tables OptThm ALists AInference AInferenceThm AConvexThm AExistThm.
 Import ListNotations.
 Open Scope list_scope.
 
@@ -113,7 +113,7 @@ Proof. exact nn_term_max_unique. Qed.
 Print Assumptions C17_likelihood_term_unique_max.
 
 (* The objective of the density estimators (generated [loss] with the generated affine [transform]) is strictly - in
-   fact 1-strongly - convex on R^k: quadratic prior + exp(affine) - affine.  Hence at most one minimiser, and a point
+   fact 1-strongly - convex on R^k: quadratic prior + exp(affine) - affine.  Hence at most one minimiser (exactly one: C17_loss_has_unique_minimiser below), and a point
    whose loss is within eps of the minimum is within sqrt(2 eps) of the minimiser (thm/AConvexThm.v). *)
 Theorem C17_loss_strictly_convex : forall (lgam : R -> R) k r d mu L z w t,
   length z = length w -> z <> w -> (0 < t < 1)%R ->
@@ -141,6 +141,15 @@ Theorem C17_loss_quadratic_growth : forall (lgam : R -> R) k r d mu L n z w,
   (loss lgam k r d (transform mu L) z + (1 / 2) * sqdist z w <= loss lgam k r d (transform mu L) w)%R.
 Proof. exact loss_quadratic_growth. Qed.
 Print Assumptions C17_loss_quadratic_growth.
+
+(* ... and a minimiser exists (thm/AExistThm.v: the objective is bounded below, a minimising sequence is Cauchy by strong
+   convexity, R^k is complete coordinate-wise, the objective is continuous along convergent sequences; the sequence is
+   chosen with the standard library's Epsilon.constructive_indefinite_description): the fit problem is well posed *)
+Theorem C17_loss_has_unique_minimiser : forall (lgam : R -> R) k r d mu L n,
+  exists z, is_minimiser (loss lgam k r d (transform mu L)) n z
+            /\ forall w, is_minimiser (loss lgam k r d (transform mu L)) n w -> w = z.
+Proof. exact loss_has_unique_minimiser. Qed.
+Print Assumptions C17_loss_has_unique_minimiser.
 
 (* the scalar core, kept from the first delivery *)
 Theorem C17_loss_strictly_convex_partial : forall a b c x y t, x <> y -> (0 < t < 1)%R ->
